@@ -685,23 +685,38 @@ pub fn execute(sc: &Scenario, world: &World, budget: &[usize]) -> Run {
         applied: vec![false; sc.mutations.len()],
         triggers: sc.triggers.clone(),
     }));
+    let has_cd = sc.schedule.iter().any(|s| matches!(s, Step::Cd(_)));
+    if has_cd && sc.walkers.iter().any(|w| !matches!(w.spelling, Spelling::Absolute | Spelling::AbsoluteSlash | Spelling::AbsoluteSlashDot)) {
+        return Run {
+            log: vec![],
+            build_error: Some("working-directory changes need absolute bases".to_string()),
+        };
+    }
     let mut its: Vec<Option<BoxIt>> = Vec::new();
-    for wi in 0..sc.walkers.len() {
+    let mut built = vec![false; sc.walkers.len()];
+    let mut build_error: Option<String> = None;
+    let mut construct = |wi: usize, its: &mut Vec<Option<BoxIt>>, built: &mut Vec<bool>| {
+        if built[wi] {
+            return;
+        }
+        built[wi] = true;
         match guarded(|| build_walker(sc, wi, world, &log, &mutator)) {
-            Ok(Ok(it)) => its.push(Some(it)),
-            Ok(Err(e)) => {
-                return Run {
-                    log: vec![],
-                    build_error: Some(e),
-                }
-            },
+            Ok(Ok(it)) => its[wi] = Some(it),
+            Ok(Err(e)) => build_error = Some(e),
             Err(p) => {
                 log.borrow_mut().push(Ev::Panic {
                     w: wi,
                     msg: format!("construction: {}", panic_text(p)),
                 });
-                its.push(None);
             },
+        }
+    };
+    for _ in 0..sc.walkers.len() {
+        its.push(None);
+    }
+    if !sc.lazy {
+        for wi in 0..sc.walkers.len() {
+            construct(wi, &mut its, &mut built);
         }
     }
     let mut calls = vec![0usize; its.len()];
@@ -766,19 +781,32 @@ pub fn execute(sc: &Scenario, world: &World, budget: &[usize]) -> Run {
         }
     };
     for step in &sc.schedule {
-        match *step {
-            Step::W(wi) if wi < its.len() => step_walker(wi, &mut its, &mut calls),
+        match step.clone() {
+            Step::W(wi) if wi < its.len() => {
+                construct(wi, &mut its, &mut built);
+                step_walker(wi, &mut its, &mut calls)
+            },
+            Step::Cd(dir) => {
+                let _ = std::env::set_current_dir(world.abs(&dir));
+            },
             Step::M(mi) if mi < sc.mutations.len() => {
                 mutator.borrow_mut().apply(mi, &log);
             },
-            Step::D(wi) if wi < its.len() && its[wi].is_some() => {
-                its[wi] = None;
-                log.borrow_mut().push(Ev::Dropped { w: wi });
+            Step::D(wi) if wi < its.len() => {
+                // (a walk that was constructed and never advanced is dropped here too)
+                construct(wi, &mut its, &mut built);
+                if its[wi].is_some() {
+                    its[wi] = None;
+                    log.borrow_mut().push(Ev::Dropped { w: wi });
+                }
             },
             _ => {},
         }
     }
     // Drain: round-robin over the walkers that are still live.
+    for wi in 0..sc.walkers.len() {
+        construct(wi, &mut its, &mut built);
+    }
     while its.iter().any(|it| it.is_some()) {
         for wi in 0..its.len() {
             step_walker(wi, &mut its, &mut calls);
@@ -786,6 +814,12 @@ pub fn execute(sc: &Scenario, world: &World, budget: &[usize]) -> Run {
     }
     drop(its);
     let _ = std::env::set_current_dir("/");
+    if let Some(e) = build_error {
+        return Run {
+            log: vec![],
+            build_error: Some(e),
+        };
+    }
     let log = Rc::try_unwrap(log).map(|c| c.into_inner()).unwrap_or_else(|rc| rc.borrow().clone());
     Run {
         log,
